@@ -151,6 +151,7 @@ type errVar struct {
 }
 
 type pst struct {
+	boolDefs  map[types.Object]ast.Expr  // local bool variables defined once by an expression
 	bufState  map[string]string          // builder name -> empty | nonempty
 	setVars   map[types.Object]string    // local *PercentEncodeSet variables -> resolved expression
 	strVars   map[types.Object]ast.Expr  // local strings defined by an encode call
@@ -186,6 +187,10 @@ func (s *pst) clone() *pst {
 	n.strVars = map[types.Object]ast.Expr{}
 	for k, v := range s.strVars {
 		n.strVars[k] = v
+	}
+	n.boolDefs = map[types.Object]ast.Expr{}
+	for k, v := range s.boolDefs {
+		n.boolDefs[k] = v
 	}
 	n.facts = make(map[string]bool, len(s.facts))
 	for k, v := range s.facts {
@@ -395,18 +400,25 @@ func buildSMAn(c *Ctx) (*smAn, error) {
 		}
 		return true
 	})
-	// base: the one local variable of type *Url (the private copy of the base argument)
+	// base: the one local variable of type *Url (the private copy of the base argument), however it is declared
 	ast.Inspect(a.fd.Body, func(n ast.Node) bool {
-		if vs, ok := n.(*ast.ValueSpec); ok {
-			for _, nm := range vs.Names {
-				if o := a.info.Defs[nm]; o != nil && types.Identical(o.Type(), types.NewPointer(urlT)) {
-					if a.baseObj != nil && a.baseObj != o {
-						a.problems = append(a.problems, "more than one local *Url variable in BasicParser")
-					}
-					a.baseObj = o
-				}
+		id, ok := n.(*ast.Ident)
+		if !ok {
+			return true
+		}
+		o := a.info.Defs[id]
+		if o == nil || !types.Identical(o.Type(), types.NewPointer(urlT)) {
+			return true
+		}
+		for _, up := range urlParams {
+			if o == up {
+				return true
 			}
 		}
+		if a.baseObj != nil && a.baseObj != o {
+			a.problems = append(a.problems, "more than one local *Url variable in BasicParser")
+		}
+		a.baseObj = o
 		return true
 	})
 	for _, up := range urlParams {
@@ -966,6 +978,11 @@ func (a *smAn) atom(e ast.Expr, s *pst) []vs {
 	if a.isIdent(e, a.ovObj) {
 		return []vs{{s, a.ctx.Override != ""}}
 	}
+	if id, ok := e.(*ast.Ident); ok {
+		if d, ok := s.boolDefs[a.obj(id)]; ok {
+			return a.evalBool(d, s)
+		}
+	}
 	if be, ok := e.(*ast.BinaryExpr); ok && (be.Op == token.EQL || be.Op == token.NEQ) {
 		eq := be.Op == token.EQL
 		for _, pr := range [][2]ast.Expr{{be.X, be.Y}, {be.Y, be.X}} {
@@ -1094,6 +1111,9 @@ func (a *smAn) atom(e ast.Expr, s *pst) []vs {
 						}
 						if v, ok := t.facts[k]; ok && !v {
 							feasible = false
+						}
+						if _, known := t.facts[k]; !known {
+							t.path.Assumes = append(t.path.Assumes, k)
 						}
 						t.facts[k] = true
 					}
@@ -1346,6 +1366,13 @@ func (a *smAn) assign(x *ast.AssignStmt, s *pst) {
 			if r != nil && namedOf(o.Type()) == "PercentEncodeSet" {
 				s.setVars[o] = a.resolveSet(r, s)
 			}
+			if r != nil && x.Tok == token.DEFINE && types.Identical(o.Type().Underlying(), types.Typ[types.Bool]) && o != a.ovObj {
+				if _, isCall := ast.Unparen(r).(*ast.CallExpr); !isCall {
+					s.boolDefs[o] = r
+				}
+			} else {
+				delete(s.boolDefs, o)
+			}
 			if r != nil && types.Identical(o.Type(), types.Typ[types.String]) {
 				if call, ok := ast.Unparen(r).(*ast.CallExpr); ok {
 					if cl, _ := typeutil.Callee(a.info, call).(*types.Func); cl != nil && strings.HasPrefix(cl.Name(), "percentEncode") {
@@ -1389,6 +1416,22 @@ func (a *smAn) assign(x *ast.AssignStmt, s *pst) {
 						} else if call, ok := rr.(*ast.CallExpr); ok {
 							if id, ok := call.Fun.(*ast.Ident); ok && id.Name == "new" {
 								kind = "fresh"
+							}
+							// a write-free copy function applied to base's component: still the base's component
+							var operand ast.Expr
+							if sel, ok := call.Fun.(*ast.SelectorExpr); ok && len(call.Args) == 0 {
+								operand = sel.X
+							} else if len(call.Args) == 1 {
+								operand = call.Args[0]
+							}
+							if operand != nil {
+								if bf, ok := a.baseField(operand); ok && bf == f {
+									if cl, _ := typeutil.Callee(a.info, call).(*types.Func); cl != nil {
+										if sum := a.eff.Sum(a.ssaOf(cl)); sum != nil && len(sum.Mut) == 0 {
+											kind, detail = "inherit", "copy by "+cl.Name()
+										}
+									}
+								}
 							}
 						}
 					}
@@ -1486,7 +1529,7 @@ func (a *smAn) clauseBody(state string) []ast.Stmt {
 }
 
 func (a *smAn) newState(state string) *pst {
-	return &pst{bufState: map[string]string{}, setVars: map[types.Object]string{}, strVars: map[types.Object]ast.Expr{}, path: smPath{Ctx: a.ctx.Name, State: state}, facts: map[string]bool{}, rclass: a.allClasses(), eofSynced: true,
+	return &pst{boolDefs: map[types.Object]ast.Expr{}, bufState: map[string]string{}, setVars: map[types.Object]string{}, strVars: map[types.Object]ast.Expr{}, path: smPath{Ctx: a.ctx.Name, State: state}, facts: map[string]bool{}, rclass: a.allClasses(), eofSynced: true,
 		errs: map[types.Object]*errVar{}, nonNil: map[types.Object]bool{}, urlNil: triF}
 }
 
